@@ -444,6 +444,11 @@ type CopyObjectResult struct {
 	XMLName      xml.Name    `xml:"CopyObjectResult"`
 	ETag         string      `xml:"ETag,omitempty"`
 	LastModified ContentTime `xml:"LastModified,omitempty"`
+
+	// VersionID is the version the copy created, if the destination bucket
+	// has versioning enabled. It is sent as the x-amz-version-id header, not
+	// in the body.
+	VersionID VersionID `xml:"-"`
 }
 
 // MFADeleteStatus is used by VersioningConfiguration.
